@@ -175,7 +175,7 @@ def _k3_job(job):
     sym = {}
     ALPHA = ['a', 'b', 'c'][:max(2, K)]
     def entry(M):
-        lib = deep_clone(lib0) if not split else None
+        lib = deep_clone(lib0)
         ids = {n: models.str_term(M, Str(n)) for n in ALPHA}
         mapping = {}
         for i in range(K):
@@ -253,7 +253,7 @@ def _k4_job(job):
     M = Machine(P, max_steps=100_000_000); M.toposort_deterministic = True
     sym = {}; ALPHA = ['a', 'b']
     def entry(M):
-        lib = deep_clone(lib0)
+        lib = deep_clone(lib0) if not split else None
         ids = {n: models.str_term(M, Str(n)) for n in ALPHA}
         mapping = {}
         for i in range(K):
